@@ -9,7 +9,7 @@ import json, os, shutil, subprocess, sys, time, glob
 
 prop, mut = sys.argv[1], sys.argv[2]
 extra = sys.argv[3:]
-WT = os.path.join(os.environ.get("SEED_ROOT", "/tmp/seed"), prop)
+WT = os.environ.get("SEED_WT") or os.path.join(os.environ.get("SEED_ROOT", "/tmp/seed"), prop)
 OUT = os.path.join(WT, "OUT")
 VERIF = os.path.dirname(os.path.dirname(os.path.abspath(__file__)))
 RUNVERIF = os.environ.get("SEED_VERIF", VERIF)      # copy of /verif the checks are run from (so that work in /verif/lean does not interfere)
@@ -100,7 +100,7 @@ finally:
 meta["checks"] = results
 meta["caught_by"] = [p for p, r in results.items() if r["exit"] != 0 or r["violation_line"]]
 meta["kind"] = "behaviour-preserving rewrite (checks must stay quiet)" if SAFE else "property-breaking change"
-dst = os.path.join(os.environ.get("SEED_STORE", os.path.join(VERIF, "seeded")), "%s-%s" % (prop, mut))
+dst = os.path.join(os.environ.get("SEED_STORE", os.path.join(VERIF, "seeded")), os.environ.get("SEED_NAME") or "%s-%s" % (prop, mut))
 os.makedirs(dst, exist_ok=True)
 shutil.copy(patch, os.path.join(dst, "patch.diff"))
 for f in glob.glob(os.path.join(OUT, mut + "_demo.*")):
